@@ -8,7 +8,7 @@
    re-arm handles, which only queues them in loop->watcher_queue.  [KI] is the invariant every
    reachable state of the C14 model satisfies (Proofs/IoWatchProofsK.v, run_KI / KI_init). *)
 From UV Require Import Lib.Base Model.IoWatch Model.IoPollBatch Proofs.IoWatchProofs Proofs.IoWatchProofsN
-  Proofs.IoWatchProofsK Proofs.IoPollBatchProofs.
+  Proofs.IoWatchProofsK Proofs.IoWatchProofsX Proofs.IoPollBatchProofs.
 Local Open Scope Z_scope.
 
 (* Whenever the loop is about to block: an epoll_pwait with a non-zero timeout is made only in the
@@ -58,3 +58,27 @@ Example C14_plan_nonvacuous :
   plan 48 1024 4997 [(3%nat, true)] = [4997] /\
   length (plan 48 2 (-1) (repeat (2%nat, true) 100)) = 48%nat.
 Proof. vm_compute. repeat split. Qed.
+
+(* The scenario of harness/c14_fullbatch.c in small ([cap] = 2): two started handles are ready and
+   fill the batch, the first callback starts a third handle.  The model polls again inside the same
+   uv__io_poll with timeout 0 and with the new handle still in the watcher queue (not registered
+   with the kernel): the second call is exactly the one the theorem above has to keep from blocking,
+   and its premise [KI] holds of the start state. *)
+Definition nv_s0 : state :=
+  fst (run (fun k => match k with O => 5 | 1%nat => 6 | _ => 7 end) (fun _ => []) (fun _ => [])
+           (sinit true false)
+           [OOpen 0; OOpen 1; OOpen 2; OInit 0; OInit 1; OInit 2;
+            OStart 0 (UVM true false); OStart 1 (UVM true false)]).
+Definition nv_r0 : bres :=
+  io_poll_full 2 (fun _ => 9)
+    (fun k => match k with O => [(5, ONLY_IN); (6, ONLY_IN)] | _ => [] end)
+    (fun k => match k with O => [OStart 2 (UVM true false)] | _ => [] end) nv_s0 500.
+Example C14_repoll_scenario :
+  KI nv_s0 /\
+  map pw_timeout (b_calls nv_r0) = [500; 0] /\
+  map (fun c => wq (pw_at c)) (b_calls nv_r0) = [[]; [2%nat]] /\
+  map pw_ncb (b_calls nv_r0) = [0%nat; 2%nat] /\
+  b_retry nv_r0 = false /\ wq (b_state nv_r0) = [2%nat].
+Proof.
+  split; [apply C14_repoll_hypothesis_reachable|]. vm_compute. repeat split.
+Qed.
